@@ -64,6 +64,12 @@ func runNode(rng *rand.Rand, n int, out *Out, args []string) {
 		if w == 1 {
 			a = append(a, "starved")
 		}
+		if w == 2 {
+			a = append(a, "twin")
+		}
+		if w == 3 {
+			a = append(a, "asked")
+		}
 		wg.Add(1)
 		go func(w int, a []string) {
 			defer wg.Done()
@@ -120,6 +126,18 @@ func runNodeWorker(rng *rand.Rand, n int, out *Out, args []string) {
 	}
 	if len(args) > 0 && args[0] == "starved" {
 		starvedUpdates(rng, out)
+	}
+	if len(args) > 0 && args[0] == "asked" {
+		askedPointsHistory(rng, out)
+		if len(args) > 1 {
+			return
+		}
+	}
+	if len(args) > 0 && args[0] == "twin" {
+		gappedTwin(rng, out)
+		if len(args) > 1 {
+			return
+		}
 	}
 	for i := 0; i < n; i++ {
 		nodeHistory(rng, out)
